@@ -1,0 +1,22 @@
+//go:build verif
+// +build verif
+
+package mpegts
+
+// Accessors for the verification harness (build tag verif only).
+
+// VerifNewFrame builds a Frame including the unexported key flag, so that the harness can
+// hand arbitrary frames (any header bytes, any PID) to Writer.WriteMpegtsFrame.
+func VerifNewFrame(pid, streamID int, dts, pts int64, header, payload []byte, key bool) *Frame {
+	return &Frame{Pid: pid, StreamID: streamID, Dts: dts, Pts: pts, Header: header, Payload: payload, key: key}
+}
+
+// VerifCounters returns the continuity counters of a Writer.
+func (w *Writer) VerifCounters() (video, audio int) { return w.videoCC, w.audioCC }
+
+// VerifAvcHeader runs prepareAvcHeader on a frame with the given payload and returns the header.
+func VerifAvcHeader(sps, pps, payload []byte) []byte {
+	f := &Frame{Payload: payload}
+	f.prepareAvcHeader(sps, pps)
+	return f.Header
+}
